@@ -42,7 +42,9 @@ func (o c19Outcome) served() bool {
 
 func c19CallAll(conn *grpc.ClientConn, acct string, pub []byte, epoch uint64, genName string) []c19Outcome {
 	var out []c19Outcome
-	ctxf := func() (context.Context, context.CancelFunc) { return context.WithTimeout(context.Background(), 5*time.Second) }
+	ctxf := func() (context.Context, context.CancelFunc) {
+		return context.WithTimeout(context.Background(), 5*time.Second)
+	}
 	errs := func(err error) string {
 		if err == nil {
 			return ""
